@@ -1,11 +1,11 @@
 SPECIFICATION Spec
 CONSTANTS
-  P = 257
-  GEN = 3
-  MaxLog = 5
-  AllLen = 0
-  AllMaxLog = 0
-  PolyAllLen = 0
+  P = 5
+  GEN = 2
+  MaxLog = 2
+  AllLen = 4
+  AllMaxLog = 2
+  PolyAllLen = 3
   MaxThreads = 17
   SchedThreads = {1,2,3,4,5,6,7,8,9,10,11,12,13,14,15,16,17}
   Fams = {"fft", "twid", "poly", "binv", "closed", "bary"}
